@@ -1885,14 +1885,30 @@ func ruleQQ(m *evalModel, r *Report, e *Engine) {
 				}
 			}
 			r.check(head != "" && w.registeredNames()[head] != "", "C12.qq-dispatch", m.quasiquote, "vector template", ret.Pos(), "(vec <element loop>): vectors stay vectors", "a vector template is not rebuilt as a vector")
-		case "":
+		case "", "types.HashMap", "types.Symbol":
 			// default: literal
-			okLit := v == ssa.Value(m.quasiquote.Params[0])
+			isTemplate := func(x ssa.Value) bool {
+				if x == ssa.Value(m.quasiquote.Params[0]) {
+					return true
+				}
+				// the template under its asserted type, boxed again
+				if mi, ok := x.(*ssa.MakeInterface); ok {
+					src := mi.X
+					if ex, ok := src.(*ssa.Extract); ok {
+						src = ex.Tuple
+					}
+					if ta, ok := src.(*ssa.TypeAssert); ok && ta.X == ssa.Value(m.quasiquote.Params[0]) {
+						return true
+					}
+				}
+				return false
+			}
+			okLit := isTemplate(v)
 			if !okLit {
 				// HashMap/Symbol share a case: (quote ast)
 				if c, ok := v.(*ssa.Call); ok && c.Call.StaticCallee() != nil && c.Call.StaticCallee().Name() == "NewList" {
 					els := sliceLiteralElems(c.Call.Args[0])
-					okLit = len(els) == 2 && symbolLiteral(els[0]) == "quote" && els[1] == ssa.Value(m.quasiquote.Params[0])
+					okLit = len(els) == 2 && symbolLiteral(els[0]) == "quote" && isTemplate(els[1])
 				}
 			}
 			r.check(okLit, "C12.qq-dispatch", m.quasiquote, "literal / quoted template", ret.Pos(), "returned literally or quoted", "a non-list, non-vector template is transformed")
@@ -1988,12 +2004,10 @@ func (w *World) registeredNames() map[string]string {
 				}
 				switch callee {
 				case callA:
-					v := c.Call.Args[1]
-					if mi, ok := v.(*ssa.MakeInterface); ok {
-						v = mi.X
-					}
-					if g, ok := v.(*ssa.Function); ok {
-						out[strings.ReplaceAll(strings.ToLower(g.Name()), "_", "-")] = w.fnName(fn)
+					for _, g := range w.regFuncsOfArg(c.Call.Args[1], 0) {
+						if g.Parent() == nil {
+							out[strings.ReplaceAll(strings.ToLower(g.Name()), "_", "-")] = w.fnName(fn)
+						}
 					}
 				case callB:
 					if k, ok := c.Call.Args[1].(*ssa.Const); ok && k.Value != nil {
@@ -2416,6 +2430,7 @@ func engineRule(w *World, r *Report, e *Engine) {
 	// ... nor does it write the positions of the forms it is shown (they are shared with the forms and with the
 	// errors the program goes on to raise)
 	printPureRule(w, r, "C18.print-pure")
+	undoAlwaysRunsRule(w, r, "C18.undo")
 	r.rule("C18.position-intact", "the repository's debugger engine writes no field of a Position it did not allocate itself: what it displays about a form's position is computed on copies, so the errors of the debugged program name the same module and rows as without a stepper")
 	npw := positionWrites(w, r, e, "C18.position-intact", func(fn *ssa.Function) bool { return strings.HasSuffix(fnPkgPath(fn), "/debugger") })
 	r.add("C18.position-intact", nil, "writes to Position fields in package debugger", token.NoPos, "ok", fmt.Sprintf("%d examined", npw))
@@ -2585,6 +2600,9 @@ func tryShapeRule(m *evalModel, r *Report) {
 		if strings.HasPrefix(form, "=") {
 			X = form[1:] // the operand list itself was handed over
 		}
+		if strings.HasPrefix(form, "~") {
+			X = form[1:] + ".Val" // the form was handed over as a list value
+		}
 		last1 := X + "[len(" + X + ")-1]"
 		last2 := X + "[len(" + X + ")-2]"
 		lastAlt := []string{last1, last2, X + "[1]", X + "[2]", "φ"} // `last`/`prelast` are phis over the length switch
@@ -2682,6 +2700,9 @@ func tryShapeRule(m *evalModel, r *Report) {
 				for i, a := range c.Call.Args {
 					if canonVal(m.e, a) == form {
 						variant = fmt.Sprintf("p%d", i)
+					}
+					if canonVal(m.e, a) == form+".(types.List)" {
+						variant = fmt.Sprintf("~p%d", i)
 					}
 				}
 			}
@@ -2960,6 +2981,20 @@ func carriesExistingError(v ssa.Value, depth int) bool {
 		if pi, ok := errDecorator(c); ok && pi < len(y.Call.Args) {
 			return carriesExistingError(y.Call.Args[pi], depth+1)
 		}
+		// a function of the module every return of which makes its error from scratch
+		if inModule(c) && len(c.Blocks) > 0 && !errDecoBusy[c] && c.Signature.Results().Len() == 1 {
+			errDecoBusy[c] = true
+			defer delete(errDecoBusy, c)
+			for _, b := range c.Blocks {
+				if len(b.Instrs) == 0 || b == c.Recover {
+					continue
+				}
+				if ret, ok := b.Instrs[len(b.Instrs)-1].(*ssa.Return); ok && len(ret.Results) == 1 && carriesExistingError(resolveRet(ret.Results[0]), depth+1) {
+					return true
+				}
+			}
+			return false
+		}
 		return true
 	}
 	return true
@@ -3201,6 +3236,17 @@ func droppedErrorRule(w *World, r *Report, rule string) {
 					}
 				}
 				if len(tests) == 0 {
+					// bound to a variable that is assigned again before anybody reads it: the error is lost
+					used := false
+					for _, ref := range *errEx.Referrers() {
+						if _, isDbg := ref.(*ssa.DebugRef); !isDbg {
+							used = true
+						}
+					}
+					if !used && !w.blankResult(c, hasErrorResult(callee)) {
+						n++
+						r.bad(rule, fn, "error of "+callee.Name()+" bound and never read", c.Pos(), "the error returned by "+callee.Name()+" is assigned to a variable that is overwritten (or left) before it is looked at: when the callee fails - an update function that throws, say - the function goes on with the callee's empty result and answers success")
+					}
 					continue // handled in other ways (returned, stored, passed on): other rules
 				}
 				for _, rb := range fn.Blocks {
@@ -3551,4 +3597,90 @@ func expansionOnlyRule(w *World, r *Report, m *evalModel, rule string) {
 		r.check(okSite, rule, ec.fn, "call of the macro expander", ec.call.Pos(), "the top of the loop or the macroexpand form", "a form (or a part of one) is expanded ahead of its evaluation in "+w.fnName(ec.fn)+": what is evaluated later is not the form as written")
 	}
 	r.floor(rule, "calls of the macro expander", n, 2)
+}
+
+// undoAlwaysRunsRule: what the debugger changes about the running program's scope or evaluator "for the moment"
+// (a protection, a saved setting) it takes back through the function the change handed it. That function is then
+// called on every way out of the step: a path that leaves the loop or the function without calling it leaves the
+// program in the changed state for the rest of its run.
+func undoAlwaysRunsRule(w *World, r *Report, rule string) {
+	r.rule(rule, "in package debugger every func() obtained as the result of a call into the module (a release, restore or undo function) is deferred, or called on every path from the call that produced it to the next return of the function and to the next round of the enclosing loop")
+	n := 0
+	for _, fn := range w.pkgFuncs("debugger") {
+		if isTestFunc(w, fn) {
+			continue
+		}
+		for _, b := range fn.Blocks {
+			for i, in := range b.Instrs {
+				c, ok := in.(*ssa.Call)
+				if !ok || c.Call.StaticCallee() == nil || !inModule(c.Call.StaticCallee()) {
+					continue
+				}
+				var undo ssa.Value
+				if sig, ok := c.Type().Underlying().(*types.Signature); ok && sig.Params().Len() == 0 && sig.Results().Len() == 0 {
+					undo = c
+				}
+				if undo == nil {
+					continue
+				}
+				n++
+				runs := map[*ssa.BasicBlock]bool{}
+				deferred, sameBlock := false, false
+				for _, ref := range *undo.Referrers() {
+					switch u := ref.(type) {
+					case *ssa.Defer:
+						if u.Call.Value == undo {
+							deferred = true
+						}
+					case *ssa.Call:
+						if u.Call.Value == undo {
+							runs[u.Block()] = true
+							if u.Block() == b {
+								for _, later := range b.Instrs[i+1:] {
+									if later == ssa.Instruction(u) {
+										sameBlock = true
+									}
+								}
+							}
+						}
+					}
+				}
+				if deferred || sameBlock {
+					r.ok(rule, fn, "undo function of "+c.Call.StaticCallee().Name(), c.Pos(), "deferred or called right away")
+					continue
+				}
+				// a path from the call to a return, or round to the call again, that runs the undo nowhere
+				leak, leaks := token.NoPos, false
+				seen := map[*ssa.BasicBlock]bool{}
+				work := append([]*ssa.BasicBlock{}, b.Succs...)
+				if len(b.Succs) == 0 {
+					leak, leaks = instrPos(b.Instrs[len(b.Instrs)-1]), true
+				}
+				for len(work) > 0 && !leaks {
+					x := work[len(work)-1]
+					work = work[:len(work)-1]
+					if seen[x] || runs[x] {
+						continue
+					}
+					seen[x] = true
+					if x == b {
+						leak, leaks = c.Pos(), true
+						break
+					}
+					if len(x.Succs) == 0 {
+						if _, isRet := x.Instrs[len(x.Instrs)-1].(*ssa.Return); isRet {
+							leak, leaks = instrPos(x.Instrs[len(x.Instrs)-1]), true
+							if leak == token.NoPos {
+								leak = fn.Pos() // the end of the function body
+							}
+						}
+						continue
+					}
+					work = append(work, x.Succs...)
+				}
+				r.check(!leaks, rule, fn, "undo function of "+c.Call.StaticCallee().Name(), c.Pos(), "called on every way out", "the function returned by "+c.Call.StaticCallee().Name()+" is not called on the path that reaches "+w.pos(leak)+": what the debugger changed for the moment stays changed, and the program goes on in a scope or under a setting it would not have without the debugger")
+			}
+		}
+	}
+	r.add(rule, nil, "undo functions obtained by the debugger", token.NoPos, "ok", fmt.Sprintf("%d found", n))
 }
